@@ -113,7 +113,8 @@ def value_and_search(rnd, acc, case=None):
     shp = calast.shape(ast)
     try:
         kept = []
-        cal = calast.build(ast, kept)
+        parts = []
+        cal = calast.build(ast, kept, parts)
         if case.get('alias_probe'):
             # the day lists and dicts handed to the constructors are the caller's: editing them afterwards (a template
             # that is reused for the next calendar) must not change what the calendar was configured with
@@ -130,6 +131,23 @@ def value_and_search(rnd, acc, case=None):
         acc.ev()
         acc.violation(f'C17/valid-definition-rejected/{type(e).__name__}', f'valid calendar expression {shp} rejected: {type(e).__name__}: {e}', case)
         return case
+    # an operator builds a new calendar; the calendars it was given still mean what they meant (a planner keeps `base = a + b`
+    # and derives `base + overtime` from it)
+    for sub, obj in parts[:-1]:
+        for d, cls in case['dates'][:6]:
+            try:
+                adm = calast.evs(sub, d)
+            except calast.Undefined:
+                continue
+            try:
+                got_ = obj.get_available_units(d)
+            except Exception:
+                continue
+            acc.ev()
+            acc.count('operand_checks')
+            if not any(close(got_, e_) for e_ in adm):
+                acc.violation(f'C17/operand-changed-by-operator/{ast[0]}', f'after building {shp}, its operand {calast.shape(sub)} answers {got_!r} for {d} (admissible {sorted(adm, key=repr)!r})', _one(case, d, cls))
+                break
     for d, cls in case['dates']:
         try:
             exp = calast.ev(ast, d)
